@@ -158,12 +158,20 @@ func fillContainers(containers map[*container.Container][]string) error {
 }
 
 func (s *State) apply(args []string, pc matcher.ParseContext) bool {
-	return s.applyFrom(args, pc, nil)
+	return s.applyFrom(args, pc, nil, map[string]bool{})
+}
+
+// deadKey identifies a configuration entered right after input was consumed: whether it leads to
+// a terminal state depends on nothing else
+func deadKey(s *State, args []string, rejectOptions bool) string {
+	return fmt.Sprintf("%p %t %q", s, rejectOptions, args)
 }
 
 // applyFrom is apply with the set of states already entered since input was last consumed:
 // going back to one of them without having consumed anything could only repeat the same attempts
-func (s *State) applyFrom(args []string, pc matcher.ParseContext, seen map[*State]bool) bool {
+// dead remembers the configurations, entered right after input was consumed, that were already
+// explored without success: the same remaining arguments reached in another order need not be tried again
+func (s *State) applyFrom(args []string, pc matcher.ParseContext, seen map[*State]bool, dead map[string]bool) bool {
 	if len(args) > 0 {
 		arg := args[0]
 
@@ -200,14 +208,22 @@ func (s *State) applyFrom(args []string, pc matcher.ParseContext, seen map[*Stat
 
 	for _, m := range matches {
 		nextSeen := seen
+		key := ""
 		if m.pc.RejectOptions != pc.RejectOptions || !sameArgs(m.rem, args) {
 			nextSeen = nil
+			key = deadKey(m.tr.Next, m.rem, m.pc.RejectOptions)
+			if dead[key] {
+				continue
+			}
 		} else if seen[m.tr.Next] {
 			continue
 		}
-		if ok := m.tr.Next.applyFrom(m.rem, m.pc, nextSeen); ok {
+		if ok := m.tr.Next.applyFrom(m.rem, m.pc, nextSeen, dead); ok {
 			pc.Merge(m.pc)
 			return true
+		}
+		if key != "" {
+			dead[key] = true
 		}
 	}
 
